@@ -121,7 +121,8 @@ def run(ctx, verdict, replay=None, model_ok=True):
     if replay:
         rp = json.load(open(replay))
         job = rp.get("job") or rp["first_mismatch"]["job"]
-        batch.add({"pkg": job["pkg"], "root": "Root", "defs": []}, job["fmt"], veneers=job["veneers"], text=job["schema_text"])
+        batch.add({"pkg": job["pkg"], "root": "Root", "defs": []}, job["fmt"], veneers=job["veneers"], text=job["schema_text"],
+                  extra_inputs=[tuple(x) for x in job.get("extra_inputs") or []], passes=job.get("passes") or None)
         replay_jobs.append(job)
     else:
         n = 150 if thorough else 90
@@ -138,7 +139,7 @@ def run(ctx, verdict, replay=None, model_ok=True):
         for rep in range(3 if thorough else 1):
             for sc in gb.scenarios(rng, prefix="t%d" % rep):
                 s = srcgen.project(sc["schema"], sc["fmt"])
-                batch.add(s, sc["fmt"], veneers=sc["veneers"])
+                batch.add(s, sc["fmt"], veneers=sc["veneers"], extra_inputs=sc.get("extra_inputs"), passes=sc.get("passes"))
                 plan.append((s["pkg"], s))
                 scen[s["pkg"]] = sc
     batch.generate()
@@ -192,8 +193,9 @@ def run(ctx, verdict, replay=None, model_ok=True):
                 if given:
                     for d in given:
                         samples.append({"sid": sid, "builder": b, "doc": srcgen.dumps(d), "kind": "scenario:" + scen[sid]["shape"]})
-                    if scen[sid]["shape"] == "shared-constant":
-                        continue      # an option that also writes a constant cannot express every value: documents are chosen
+                    if scen[sid]["shape"] in ("shared-constant", "multi-builder"):
+                        continue      # an option that also writes a constant / builders selected by a constructor constant
+                                      # cannot express every value: the documents are chosen
                 for _ in range(n):
                     try:
                         d = dg.valid(name)
@@ -267,6 +269,7 @@ def run(ctx, verdict, replay=None, model_ok=True):
         s = batch.schemas[sm["sid"]]
         b = sm["builder"]
         return {"fmt": s["fmt"], "pkg": sm["sid"], "schema_text": s["text"], "veneers": s["veneers"],
+                "extra_inputs": s.get("extra_inputs") or [], "passes": s.get("passes") or [],
                 "builder": [b["For"]["SelfRef"]["ReferredPkg"], b["Name"]], "doc": sm["doc"], "kind": sm["kind"]}
 
     def fail(i, sig, detail):
@@ -450,12 +453,21 @@ def inside_builder_argument(ir, g, path, emitted):
     for o in emitted:
         for a in o.get("Assignments") or []:
             t = (a["Value"].get("Argument") or {}).get("Type")
-            if t is None or not ir.has_builder(t):
-                continue
+            if t is None or not ir.has_builder(t) or several_builders(ir, t):
+                continue      # which of several builders converts a value is decided by THIS converter
             prefix = ".".join(it["Identifier"] for it in a["Path"] if it.get("Identifier"))
             if full == prefix or full.startswith(prefix + ".") or full.startswith(prefix + "["):
                 return True
     return False
+
+
+def several_builders(ir, t):
+    k = t["Kind"]
+    if k == "array":
+        return several_builders(ir, t["Array"]["ValueType"])
+    if k == "map":
+        return several_builders(ir, t["Map"]["ValueType"])
+    return k == "ref" and len(ir.builders_for_ref(t)) > 1
 
 
 def options_for(b, g):
